@@ -2,8 +2,16 @@ module verifharness
 
 go 1.25.0
 
-require github.com/open2b/scriggo v0.0.0
+require (
+	github.com/open2b/scriggo v0.0.0
+	github.com/yuin/goldmark v1.7.16
+	golang.org/x/tools v0.43.0
+)
 
-require gopkg.in/yaml.v3 v3.0.1 // indirect
+require (
+	golang.org/x/mod v0.34.0 // indirect
+	golang.org/x/sync v0.20.0 // indirect
+	gopkg.in/yaml.v3 v3.0.1 // indirect
+)
 
 replace github.com/open2b/scriggo => /repo
